@@ -418,7 +418,9 @@ class Struct(metaclass=MetaStruct):
         return self._buffer, self._offset
 
     def __setstate__(self, state):
-        self._buffer, self._offset = state
+        # rebuild the cached offsets and size as a view does
+        buffer, offset = state
+        self.__dict__.update(self._from_buffer(buffer, offset).__dict__)
 
     @classmethod
     def _gen_data_paths(cls, base=None):
